@@ -125,6 +125,9 @@ func c08Run(c *Ctx, capSec int) {
 		add(fmt.Sprintf("ok-n3-ttl%d", ttl), fmt.Sprintf("ok-ttl%d", ttl), 0.3, 1.2, 2.3, float64(ttl)-1.4, float64(ttl)+3.3, float64(ttl)+4.5)
 	}
 	add("ok-n4-ttlm-ttl3", "ok-mixed-ttl", 0.3, 1.2, 2.3, 6.4)
+	add("ok-n3-ttl60-nsttl3", "ok-min-ttl-in-authority", 0.3, 1.2, 2.3, 6.4, 7.6)
+	add("ok-n4-ttl60-nsttl2", "ok-min-ttl-in-additional", 0.3, 1.2, 5.4, 6.6)
+	add("ok-n4-ttl2-nsttl60", "ok-min-ttl-in-answer", 0.3, 1.2, 5.4, 6.6)
 	add("ok-opt-n2-ttl5", "ok-opt", 0.3, 1.2, 3.3, 8.4)
 	add("ok-n2-ttl2147483648", "ok-ttl-2^31", 0.3, 1.3, 2.3, 6.5, 9.5)
 	add("ok-n2-ttl4294967295", "ok-ttl-2^32-1", 0.3, 1.3, 2.3, 6.5, 9.5)
